@@ -26,5 +26,6 @@ for d in sorted(glob.glob('/verif/seeded/C*')):
     subprocess.run('git -C /repo worktree remove --force %s; git -C /repo worktree prune' % wt, shell=True)
     json.dump(meta, open(d + '/meta.json', 'w'), indent=1)
     print(rows[-1], flush=True)
-subprocess.run('git -C /verif checkout -- evidence', shell=True)
-json.dump(rows, open('/verif/seeded/SUMMARY.json', 'w'), indent=1)
+if not os.environ.get('SWEEP_OUT'):
+    subprocess.run('git -C /verif checkout -- evidence', shell=True)
+json.dump(rows, open(os.environ.get('SWEEP_OUT', '/verif/seeded/SUMMARY.json'), 'w'), indent=1)
